@@ -6,7 +6,9 @@
 (*   sim      which simulation the stored `time` / `pseudopressure` belong to                         *)
 (*   cache    which simulation and mode the `recovery` attribute was computed from (or NoCache)       *)
 (*   pfAttr   what the `pressure_fracface` attribute holds ("ctor" = the constructor's value)         *)
-(*   tainted  a rejected simulate() has run; until the next successful one the object is unspecified  *)
+(*   tainted  a rejected simulate() has run; until the next successful one the object is unspecified, *)
+(*            except that an object that has never been simulated still has no simulation: recovery   *)
+(*            and interpolator calls raise (the code: some exception; observation kind "AnyError")    *)
 (* The property side is declarative: FreshObs(hist) is what a *fresh* object shows after only the     *)
 (* latest successful simulation and the calls made after it (property C10).  C10_Fresh relates both.  *)
 (* Named deviations reproduce defects that the shipped tree had (D3, D4): their configs must be       *)
@@ -16,6 +18,7 @@ EXTENDS Integers, Sequences, FiniteSets, TLC, Json
 CONSTANTS Kind,       \* "ideal" | "single" | "twophase" (= single phase without a schedule argument) | "multiphase" (simulate not implemented)
           MaxDepth,   \* bound on the number of calls in a history
           Deviation,  \* "none" | "KeepsCache" | "ClobbersPf"
+          Setters,    \* TRUE (single phase): the caller may also assign another scalar to the `pressure_fracface` attribute between calls
           Export      \* TRUE: print every maximal history with its per-step expectations
 
 VARIABLES sim, cache, pfAttr, tainted, hist, obs, exp
@@ -28,18 +31,21 @@ GridLen  == [g \in Grids |-> IF g = "C" THEN 2 ELSE 1]
 \* schedules (single-phase only): S varies in time, K is constant at the constructor's pressure;
 \* both have the length of grids A and B.  "none" = argument omitted.
 \* "O" is a schedule with ONE element (a length no time grid of the alphabet has: always rejected, never broadcast).
-Scheds   == IF Kind = "single" THEN {"S", "K", "O"} ELSE {}
-SchedLen == [s \in {"S", "K", "O"} |-> IF s = "O" THEN 3 ELSE 1]
+\* With Setters: "setpf" assigns the alternative scalar to the attribute, "KA" is the schedule constant at that alternative value.
+WithSet  == Setters /\ Kind = "single"
+Scheds   == IF Kind = "single" THEN {"S", "K", "O"} \cup (IF WithSet THEN {"KA"} ELSE {}) ELSE {}
+SchedLen == [s \in {"S", "K", "O", "KA"} |-> IF s = "O" THEN 3 ELSE 1]
 Modes    == {"flux", "density"}
 
 NoSim   == [grid |-> "none", sched |-> "none"]
 NoCache == [sim |-> NoSim, mode |-> "none"]
 
 \* a schedule that is constant at the constructor's pressure *is* the scalar setting (C17)
-Canon(s) == IF s = "K" THEN "ctor" ELSE s
+Canon(s) == IF s = "K" THEN "ctor" ELSE IF s = "KA" THEN "alt" ELSE s
 
 SimCalls == {[op |-> "simulate", grid |-> g, sched |-> s] : g \in Grids, s \in {"none"} \cup Scheds}
 Calls    == SimCalls \cup {[op |-> "rf", mode |-> m] : m \in Modes} \cup {[op |-> "interp"]}
+            \cup (IF WithSet THEN {[op |-> "setpf"]} ELSE {})
 
 Rejected(c) == c.op = "simulate" /\ c.sched # "none" /\ SchedLen[c.sched] # GridLen[c.grid]
 
@@ -54,27 +60,31 @@ LastSim(h) == IF \E i \in 1..Len(h) : IsGoodSim(h[i])
 \* a rejected simulate after the latest successful one leaves the object unspecified
 Unspecified(h) == \E j \in (LastSim(h) + 1)..Len(h) : h[j].op = "simulate" /\ ~NotImplemented(h[j])
 
-FreshSim(c) == [grid |-> c.grid, sched |-> IF c.sched = "none" THEN "ctor" ELSE Canon(c.sched)]
+\* the scalar setting in force at call i of h: the alternative value once the caller has assigned it
+AttrAt(h, i) == IF \E j \in 1..(i - 1) : h[j].op = "setpf" THEN "alt" ELSE "ctor"
+FreshSim(h, i) == [grid |-> h[i].grid, sched |-> IF h[i].sched = "none" THEN AttrAt(h, i) ELSE Canon(h[i].sched)]
 
 \* mode the interpolator of a fresh object sees after the calls h[k+1 .. n-1]: the mode of the last
 \* recovery call, or flux when the interpolator has to compute recovery itself
 RECURSIVE ModeAfter(_, _, _)
 ModeAfter(h, k, n) == IF n <= k THEN "flux"
                       ELSE IF h[n].op = "rf" THEN h[n].mode
-                      ELSE IF h[n].op = "interp" THEN ModeAfter(h, k, n - 1)   \* interp caches what it used
+                      ELSE IF h[n].op \in {"interp", "setpf"} THEN ModeAfter(h, k, n - 1)   \* interp caches what it used
                       ELSE "flux"
 
 FreshObs(h) ==
     LET n == Len(h)
         c == h[n]
         k == LastSim(h)
-    IN  IF NotImplemented(c) THEN [kind |-> "NotImplementedError"]
+    IN  IF c.op = "setpf" THEN [kind |-> "set"]
+        ELSE IF NotImplemented(c) THEN [kind |-> "NotImplementedError"]
         ELSE IF Rejected(c) THEN [kind |-> "ValueError"]
+        ELSE IF Unspecified(h) /\ k = 0 THEN [kind |-> "AnyError"]   \* never simulated successfully: nothing to report on
         ELSE IF Unspecified(h) THEN [kind |-> "unspecified"]
         ELSE IF k = 0 THEN [kind |-> "RuntimeError"]
-        ELSE IF c.op = "simulate" THEN [kind |-> "sim", of |-> FreshSim(c)]
-        ELSE IF c.op = "rf" THEN [kind |-> "rf", of |-> FreshSim(h[k]), mode |-> c.mode]
-        ELSE [kind |-> "interp", of |-> FreshSim(h[k]), mode |-> ModeAfter(h, k, n - 1)]
+        ELSE IF c.op = "simulate" THEN [kind |-> "sim", of |-> FreshSim(h, n)]
+        ELSE IF c.op = "rf" THEN [kind |-> "rf", of |-> FreshSim(h, k), mode |-> c.mode]
+        ELSE [kind |-> "interp", of |-> FreshSim(h, k), mode |-> ModeAfter(h, k, n - 1)]
 
 \* ---- implementation-shaped actions ---------------------------------------------------------------------
 Record(c, o) ==
@@ -107,7 +117,8 @@ Simulate(c) ==
 
 RF(c) ==
     /\ c.op = "rf"
-    /\ IF tainted THEN UNCHANGED <<sim, cache, pfAttr, tainted>> /\ Record(c, [kind |-> "unspecified"])
+    /\ IF tainted /\ sim = NoSim THEN UNCHANGED <<sim, cache, pfAttr, tainted>> /\ Record(c, [kind |-> "AnyError"])
+       ELSE IF tainted THEN UNCHANGED <<sim, cache, pfAttr, tainted>> /\ Record(c, [kind |-> "unspecified"])
        ELSE IF sim = NoSim THEN UNCHANGED <<sim, cache, pfAttr, tainted>> /\ Record(c, [kind |-> "RuntimeError"])
        ELSE /\ cache' = [sim |-> sim, mode |-> c.mode]
             /\ UNCHANGED <<sim, pfAttr, tainted>>
@@ -115,14 +126,22 @@ RF(c) ==
 
 Interp(c) ==
     /\ c.op = "interp"
-    /\ IF tainted THEN UNCHANGED <<sim, cache, pfAttr, tainted>> /\ Record(c, [kind |-> "unspecified"])
+    /\ IF tainted /\ sim = NoSim THEN UNCHANGED <<sim, cache, pfAttr, tainted>> /\ Record(c, [kind |-> "AnyError"])
+       ELSE IF tainted THEN UNCHANGED <<sim, cache, pfAttr, tainted>> /\ Record(c, [kind |-> "unspecified"])
        ELSE IF sim = NoSim THEN UNCHANGED <<sim, cache, pfAttr, tainted>> /\ Record(c, [kind |-> "RuntimeError"])
        ELSE LET used == IF cache = NoCache THEN [sim |-> sim, mode |-> "flux"] ELSE cache
             IN  /\ cache' = used
                 /\ UNCHANGED <<sim, pfAttr, tainted>>
                 /\ Record(c, [kind |-> "interp", of |-> used.sim, mode |-> used.mode])
 
-Do(c) == SimulateNotImplemented(c) \/ SimulateReject(c) \/ Simulate(c) \/ RF(c) \/ Interp(c)
+\* the caller assigns another scalar to the attribute: nothing stored changes; the next simulate without a schedule uses it
+SetPf(c) ==
+    /\ c.op = "setpf"
+    /\ pfAttr' = "alt"
+    /\ UNCHANGED <<sim, cache, tainted>>
+    /\ Record(c, [kind |-> "set"])
+
+Do(c) == SimulateNotImplemented(c) \/ SimulateReject(c) \/ Simulate(c) \/ RF(c) \/ Interp(c) \/ SetPf(c)
 
 Init == /\ sim = NoSim /\ cache = NoCache /\ pfAttr = "ctor" /\ tainted = FALSE
         /\ hist = <<>> /\ obs = [kind |-> "none"] /\ exp = <<>>
@@ -133,9 +152,9 @@ Next == (MaxDepth < 0 \/ Len(hist) < MaxDepth) /\ \E c \in Calls : Do(c)
 Spec == Init /\ [][Next]_vars
 
 \* ---- properties ------------------------------------------------------------------------------------
-TypeOK == /\ sim \in {NoSim} \cup [grid : Grids, sched : {"ctor", "S"}]
-          /\ cache \in {NoCache} \cup [sim : [grid : Grids, sched : {"ctor", "S"}], mode : Modes]
-          /\ pfAttr \in {"ctor", "S"}
+TypeOK == /\ sim \in {NoSim} \cup [grid : Grids, sched : {"ctor", "S", "alt"}]
+          /\ cache \in {NoCache} \cup [sim : [grid : Grids, sched : {"ctor", "S", "alt"}], mode : Modes]
+          /\ pfAttr \in {"ctor", "S", "alt"}
           /\ tainted \in BOOLEAN
 
 \* C10: what the object shows is what a fresh object shows
@@ -148,10 +167,12 @@ C10_Idempotent == \A i \in 2..Len(hist) :
 
 \* C17: constant schedule == scalar setting; errors before any simulation; mismatch rejected
 C17_ConstIsScalar == \A g \in Grids : (Kind = "single" /\ ~Rejected([op |-> "simulate", grid |-> g, sched |-> "K"]))
-                        => FreshSim([op |-> "simulate", grid |-> g, sched |-> "K"])
-                           = FreshSim([op |-> "simulate", grid |-> g, sched |-> "none"])
-C17_ErrorsBeforeSim == (hist # <<>> /\ LastSim(hist) = 0 /\ hist[Len(hist)].op # "simulate")
-                          => obs.kind \in {"RuntimeError", "unspecified"}
+                        => /\ FreshSim(<<[op |-> "simulate", grid |-> g, sched |-> "K"]>>, 1)
+                              = FreshSim(<<[op |-> "simulate", grid |-> g, sched |-> "none"]>>, 1)
+                           /\ WithSet => FreshSim(<<[op |-> "setpf"], [op |-> "simulate", grid |-> g, sched |-> "KA"]>>, 2)
+                                         = FreshSim(<<[op |-> "setpf"], [op |-> "simulate", grid |-> g, sched |-> "none"]>>, 2)
+C17_ErrorsBeforeSim == (hist # <<>> /\ LastSim(hist) = 0 /\ hist[Len(hist)].op \in {"rf", "interp"})
+                          => obs.kind \in {"RuntimeError", "AnyError"}
 C17_MismatchRejected == (hist # <<>> /\ Rejected(hist[Len(hist)])) => obs.kind = "ValueError"
 
 \* the cache never survives a simulation (the mechanism behind C10_Fresh)
